@@ -51,9 +51,30 @@ type c05Step struct {
 	size           int64
 	t              int64
 	verbatimTarget bool
+	rootMeta       bool // Glob, absolute style: the pattern's special character sits in the element directly below "/"
+}
+
+// c05RootMeta rewrites an absolute pattern so that its first element carries a special character matching itself
+// ("/tmp/x/*" -> "/tm?/x/*"): the directory part the matcher has to list is then "/" itself.
+func c05RootMeta(pat string) string {
+	if !strings.HasPrefix(pat, "/") || len(pat) < 3 {
+		return pat
+	}
+	end := strings.IndexByte(pat[1:], '/')
+	if end < 1 {
+		return pat
+	}
+	first := pat[1 : 1+end]
+	if strings.ContainsAny(first, "*?[\\") {
+		return pat
+	}
+	return "/" + first[:len(first)-1] + "?" + pat[1+end:]
 }
 
 func (s c05Step) String() string {
+	if s.rootMeta {
+		return fmt.Sprintf("Glob(root-level special character, then %q)", s.p1)
+	}
 	switch s.op {
 	case "OpenFile":
 		return fmt.Sprintf("OpenFile(%q, %#x)", s.p1, s.flags)
@@ -173,8 +194,15 @@ func c05Gen(r *vfRand, n int, unpriv, relative bool) []c05Step {
 		case "Glob":
 			// (also patterns whose only special character is the escape, in the last element or in the directory part)
 			s.p1 = vfPick(r, []string{"*", "d/*", "?", "[ab]", "*/*", "d/e/*", "nope/*", "d/[xy]", "a*", "\\a", "d/\\x", "\\d/x", "\\d/*", "d/e/\\z", "[a-c]", "d/?", "l/*", "*/x"})
+			// absolute style, now and then: a special character already in the element directly below "/"
+			s.rootMeta = !relative && r.Intn(4) == 0
 		case "Walk":
 			s.p1 = vfPick(r, []string{".", "d", "d/e", "a"})
+		}
+		// now and then a name whose last element is longer than any file system takes (NAME_MAX)
+		if s.op != "Glob" && s.op != "Walk" && s.op != "Symlink" && r.Intn(30) == 0 {
+			long := strings.Repeat("n", 300)
+			s.p1 = vfPick(r, []string{long, "d/" + long, long + "/q"})
 		}
 		out = append(out, s)
 	}
@@ -307,7 +335,11 @@ func c05Ref(s c05Side, st c05Step) (string, error) {
 		sort.Strings(l)
 		return strings.Join(l, ","), nil
 	case "Glob":
-		m, err := filepath.Glob(filepath.Join(s.root, st.p1))
+		pat := filepath.Join(s.root, st.p1)
+		if st.rootMeta {
+			pat = c05RootMeta(pat)
+		}
+		m, err := filepath.Glob(pat)
 		var l []string
 		for _, x := range m {
 			rel, _ := filepath.Rel(s.root, x)
@@ -466,6 +498,9 @@ func c05Sut(c *Client, s c05Side, st c05Step) (string, error) {
 		sort.Strings(l)
 		return strings.Join(l, ","), nil
 	case "Glob":
+		if st.rootMeta {
+			p1 = c05RootMeta(p1)
+		}
 		m, err := c.Glob(p1)
 		var l []string
 		for _, x := range m {
